@@ -196,8 +196,7 @@ def run_case(acc: Acc, seed: int, idx: int) -> None:
     z = gen_case(seed, idx)
     case = {"seed": seed, "idx": idx}
     acc.evaluations += 1
-    root = harness.fresh_dir("c05") / "org"
-    root.mkdir()
+    root = harness.notes_root("c05", idx)  # (some directories are reached through a symlink / a '..' component)
     z.write(root)
     crlf = idx % 8 == 5
     if crlf:
